@@ -254,7 +254,7 @@ func connReadIsRaw(e Event) bool {
 }
 
 func c01R3(c *Ctx, r *Report, rule string) {
-	r.rule(rule, "Connection.Read over all orderings of (matching, len(buf), offset) with 0<=offset<=len: matching&exhausted -> (0, ErrConsumedAllPrefetchedBytes) without touching the socket; unread bytes -> exactly one copy(p, buf[offset:]), offset += copied, (copied, nil), no socket read, buffer reset iff not matching and cursor reached the end; not matching & exhausted -> exactly one Conn.Read(p) returned unchanged", 8)
+	r.rule(rule, "Connection.Read over all orderings of (matching, len(buf), offset, len(p)) with 0<=offset<=len: matching&exhausted -> (0, ErrConsumedAllPrefetchedBytes) without touching the socket; unread bytes -> exactly one copy from buf[offset:] into p, the cursor ends at offset+copied, (copied, nil), no socket read, the buffer is reset (offset 0, length 0) iff not matching and the cursor reached the end; not matching & exhausted -> exactly one Conn.Read(p) returned unchanged", 8)
 	fnName := "layer4.(*Connection).Read"
 	fn := c.Fn(fnName)
 	if fn == nil {
@@ -263,103 +263,130 @@ func c01R3(c *Ctx, r *Report, rule string) {
 	}
 	for _, matching := range []bool{true, false} {
 		for _, w := range readWitnesses {
-			sc := &Scenario{
-				Name: fmt.Sprintf("matching=%v,%s(len=%d,off=%d)", matching, w.name, w.l, w.o),
-				Heap: map[string]SV{
-					"recv.matching": symBool(matching),
-					"recv.buf":      symSliceCap("recv.buf", w.l, 2048),
-					"recv.offset":   symInt(w.o),
-				},
-				Params: map[string]SV{"recv": symRef("recv", false), "p0": {K: "slice", Desc: "p"}},
+			name := fmt.Sprintf("matching=%v,%s(len=%d,off=%d)", matching, w.name, w.l, w.o)
+			remaining := w.l - w.o
+			lens := []int64{4}
+			if remaining > 0 {
+				lens = []int64{1, remaining, remaining + 3}
+				if remaining == 1 {
+					lens = []int64{1, 4}
+				}
 			}
-			paths, err := evalPaths(fn, sc)
-			if err != nil || len(paths) == 0 {
-				r.bad(rule, fnName, sc.Name, c.pos(fn.Pos()), fmt.Sprintf("undecided: path evaluation failed: %v (%d paths)", err, len(paths)))
-				continue
-			}
-			exhausted := w.l == w.o
 			var problems []string
-			for _, p := range paths {
-				tr := fmtTrace(p)
-				if p.Outcome != "return" {
-					problems = append(problems, "path does not return normally: "+tr)
+			total := 0
+			first := ""
+			for _, lp := range lens {
+				sc := &Scenario{
+					Name: name,
+					Heap: map[string]SV{
+						"recv.matching": symBool(matching),
+						"recv.buf":      symSliceCap("recv.buf", w.l, 2048),
+						"recv.offset":   symInt(w.o),
+					},
+					Params: map[string]SV{"recv": symRef("recv", false), "p0": symSlice("p", lp)},
+				}
+				sc.Call = func(callee string, args []SV, ev *symEval, st *symState) (SV, bool) {
+					if callee == "builtin copy" && len(args) == 2 && args[0].Len != nil && args[0].Len.Known && args[1].Len != nil && args[1].Len.Known {
+						n := args[0].Len.N
+						if args[1].Len.N < n {
+							n = args[1].Len.N
+						}
+						return symInt(n), true
+					}
+					return SV{}, false
+				}
+				paths, err := evalPaths(fn, sc)
+				if err != nil || len(paths) == 0 {
+					problems = append(problems, fmt.Sprintf("undecided: path evaluation failed: %v (%d paths)", err, len(paths)))
 					continue
 				}
-				raw := traceCalls(p, connReadIsRaw)
-				cps := traceCalls(p, func(e Event) bool { return e.Kind == "call" && e.What == "builtin copy" })
-				var offStores, bufStores []Event
-				for _, e := range p.Trace {
-					if e.Kind == "store" && e.What == "recv.offset" {
-						offStores = append(offStores, e)
+				total += len(paths)
+				exhausted := remaining == 0
+				for _, p := range paths {
+					tr := fmtTrace(p)
+					if first == "" {
+						first = tr
 					}
-					if e.Kind == "store" && e.What == "recv.buf" {
-						bufStores = append(bufStores, e)
+					if p.Outcome != "return" {
+						problems = append(problems, "path does not return normally: "+tr)
+						continue
 					}
-					if e.Kind == "store" && (e.What == "recv.matching" || e.What == "recv.frozenOffset" || e.What == "recv.Conn") {
-						problems = append(problems, "Read stores "+e.What+": "+tr)
-					}
-				}
-				switch {
-				case matching && exhausted:
-					if len(raw) > 0 || len(cps) > 0 || len(offStores) > 0 || len(bufStores) > 0 {
-						problems = append(problems, "matching with nothing buffered must only report need-more, but: "+tr)
-					}
-					if len(p.Ret) != 2 || !(p.Ret[0].K == "int" && p.Ret[0].Known && p.Ret[0].N == 0) || !strings.Contains(p.Ret[1].Desc, "ErrConsumedAllPrefetchedBytes") {
-						problems = append(problems, "matching with nothing buffered must return (0, ErrConsumedAllPrefetchedBytes), returns ("+p.retDesc()+")")
-					}
-				case !exhausted:
-					if len(raw) > 0 {
-						problems = append(problems, "socket read although unread bytes are buffered (reordering): "+tr)
-					}
-					wantSrc := fmt.Sprintf("recv.buf[%d:]", w.o)
-					if len(cps) != 1 || len(cps[0].Args) != 2 || cps[0].Args[0] != "p" || cps[0].Args[1] != wantSrc {
-						problems = append(problems, "expected exactly one copy(p, "+wantSrc+"): "+tr)
-						break
-					}
-					// first offset store must be offset + copy result
-					if len(offStores) == 0 || !isSumOf(offStores[0].Args[0], w.o, "copy#") {
-						problems = append(problems, fmt.Sprintf("cursor must advance by the number of bytes copied (offset := %d + copy result): %s", w.o, tr))
-					}
-					reset := len(bufStores) > 0 || len(offStores) > 1
-					if matching && reset {
-						problems = append(problems, "buffer/cursor reset while matching (rewind impossible): "+tr)
-					}
-					if !matching {
-						// the fork on (offset+n == len) decides: reset path must set offset 0 and buf[:0]; other path nothing
-						atEnd := false
-						for _, a := range p.Assume {
-							if strings.Contains(a, "==") && strings.HasSuffix(a, "=true") {
-								atEnd = true
-							}
-						}
-						if atEnd {
-							if !(len(offStores) == 2 && offStores[1].Args[0] == "0" && len(bufStores) == 1 && bufStores[0].Args[0] == "recv.buf[:0]") {
-								problems = append(problems, "when the cursor reaches the end outside matching the buffer must be reset (offset:=0, buf:=buf[:0]): "+tr)
-							}
-						} else if reset {
-							problems = append(problems, "buffer reset although unread bytes remain (bytes lost): "+tr)
+					raw := traceCalls(p, connReadIsRaw)
+					cps := traceCalls(p, func(e Event) bool { return e.Kind == "call" && e.What == "builtin copy" })
+					for _, e := range p.Trace {
+						if e.Kind == "store" && (e.What == "recv.matching" || e.What == "recv.frozenOffset" || e.What == "recv.Conn") {
+							problems = append(problems, "Read stores "+e.What+": "+tr)
 						}
 					}
-					if len(p.Ret) != 2 || !strings.HasPrefix(p.Ret[0].Desc, "copy#") || !(p.Ret[1].Known && p.Ret[1].Nil) {
-						problems = append(problems, "must return (copied, nil), returns ("+p.retDesc()+")")
+					off, buf := p.Heap["recv.offset"], p.Heap["recv.buf"]
+					offIs := func(n int64) bool { return off.K == "int" && off.Known && off.N == n }
+					bufLenIs := func(n int64) bool {
+						base, _ := sliceBase(buf.Desc)
+						return buf.Len != nil && buf.Len.Known && buf.Len.N == n && base == "recv.buf"
 					}
-				default: // not matching, exhausted
-					if len(cps) > 0 || len(offStores) > 0 || len(bufStores) > 0 {
-						problems = append(problems, "nothing buffered: no copy / cursor change expected: "+tr)
-					}
-					if len(raw) != 1 || len(raw[0].Args) != 2 || raw[0].Args[1] != "p" {
-						problems = append(problems, "expected exactly one underlying Conn.Read(p): "+tr)
-						break
-					}
-					if len(p.Ret) != 2 || !strings.HasSuffix(p.Ret[0].Desc, ".0") || !strings.HasSuffix(p.Ret[1].Desc, ".1") || !strings.HasPrefix(p.Ret[0].Desc, "invoke.Read#") {
-						problems = append(problems, "result of the underlying read must be returned unchanged, returns ("+p.retDesc()+")")
+					switch {
+					case matching && exhausted:
+						if len(raw) > 0 || len(cps) > 0 || !offIs(w.o) || !bufLenIs(w.l) {
+							problems = append(problems, "matching with nothing buffered must only report need-more, but: "+tr)
+						}
+						if len(p.Ret) != 2 || !(p.Ret[0].K == "int" && p.Ret[0].Known && p.Ret[0].N == 0) || !strings.Contains(p.Ret[1].Desc, "ErrConsumedAllPrefetchedBytes") {
+							problems = append(problems, "matching with nothing buffered must return (0, ErrConsumedAllPrefetchedBytes), returns ("+p.retDesc()+")")
+						}
+					case !exhausted:
+						if len(raw) > 0 {
+							problems = append(problems, "socket read although unread bytes are buffered (reordering): "+tr)
+						}
+						okCopy := len(cps) == 1 && len(cps[0].Args) == 2 && cps[0].Args[0] == "p"
+						if okCopy {
+							base, lo := sliceBase(cps[0].Args[1])
+							okCopy = base == "recv.buf" && lo == w.o
+						}
+						if !okCopy {
+							problems = append(problems, fmt.Sprintf("expected exactly one copy(p, buf[%d:]): %s", w.o, tr))
+							break
+						}
+						copied := lp
+						if remaining < copied {
+							copied = remaining
+						}
+						atEnd := w.o+copied == w.l
+						switch {
+						case matching || !atEnd:
+							if !offIs(w.o+copied) || !bufLenIs(w.l) {
+								msg := "the cursor must advance by the number of bytes copied and the buffer must stay"
+								if matching {
+									msg += " (matching: rewind must remain possible)"
+								} else {
+									msg += " (unread bytes remain: they would be lost)"
+								}
+								problems = append(problems, fmt.Sprintf("%s; len(p)=%d: cursor=%s buffer=%s: %s", msg, lp, off.Desc, buf.Desc, tr))
+							}
+						default:
+							if !offIs(0) || !bufLenIs(0) {
+								problems = append(problems, fmt.Sprintf("when the cursor reaches the end outside matching the buffer must be reset (offset 0, length 0); len(p)=%d: cursor=%s buffer=%s: %s", lp, off.Desc, buf.Desc, tr))
+							}
+						}
+						if len(p.Ret) != 2 || !(p.Ret[0].K == "int" && p.Ret[0].Known && p.Ret[0].N == copied) || !(p.Ret[1].Known && p.Ret[1].Nil) {
+							problems = append(problems, fmt.Sprintf("must return (%d, nil), returns (%s)", copied, p.retDesc()))
+						}
+					default: // not matching, exhausted
+						if len(cps) > 0 || !offIs(w.o) && !offIs(0) {
+							problems = append(problems, "nothing buffered: no copy / cursor change expected: "+tr)
+						}
+						if len(raw) != 1 || len(raw[0].Args) != 2 || raw[0].Args[1] != "p" {
+							problems = append(problems, "expected exactly one underlying Conn.Read(p): "+tr)
+							break
+						}
+						if len(p.Ret) != 2 || !strings.HasSuffix(p.Ret[0].Desc, ".0") || !strings.HasSuffix(p.Ret[1].Desc, ".1") || !strings.HasPrefix(p.Ret[0].Desc, "invoke.Read#") {
+							problems = append(problems, "result of the underlying read must be returned unchanged, returns ("+p.retDesc()+")")
+						}
 					}
 				}
 			}
 			if len(problems) == 0 {
-				r.ok(rule, fnName, sc.Name, c.pos(fn.Pos()), fmt.Sprintf("%d path(s): %s", len(paths), fmtTrace(paths[0])))
+				r.ok(rule, fnName, name, c.pos(fn.Pos()), fmt.Sprintf("%d path(s) over len(p) in %v: %s", total, lens, first))
 			} else {
-				r.bad(rule, fnName, sc.Name, c.pos(fn.Pos()), strings.Join(problems, "\n"))
+				r.bad(rule, fnName, name, c.pos(fn.Pos()), strings.Join(dedup(problems), "\n"))
 			}
 		}
 	}
@@ -522,9 +549,11 @@ func c01R5(c *Ctx, r *Report, rule string) {
 							connStored = true
 						}
 						if strings.HasSuffix(e.What, ".buf") && strings.HasPrefix(e.What, "new ") {
-							if w.l != w.o {
+							hv := p.Heap[e.What]
+							empty := hv.Len != nil && hv.Len.Known && hv.Len.N == 0 // nil or a zero-length slice: no bytes handed on
+							if w.l != w.o && !empty {
 								problems = append(problems, "the new connection receives the buffer ("+e.Args[0]+") although "+fmt.Sprint(w.l-w.o)+" byte(s) are still unread in the receiver, which the wrapped conn also reads through: bytes delivered twice")
-							} else if hv := p.Heap[e.What]; !(hv.Len != nil && hv.Len.Known && hv.Len.N == 0) {
+							} else if !empty {
 								problems = append(problems, "a drained buffer may be reused only with length 0, got "+e.Args[0])
 							}
 						}
@@ -566,7 +595,7 @@ func c01R5(c *Ctx, r *Report, rule string) {
 				_ = f
 				return ok && sn == "layer4.Connection" // what a field of the receiver holds (its socket, its context) is not the receiver
 			}
-			ok := derivesFromAvoiding(arg, rootOf(recv), underlying)
+			ok := c.builtOn(fn, arg, rootOf(recv), underlying, 0)
 			r.check(ok, rule, fname(fn), fmt.Sprintf("Wrap-arg#%d", n), c.ipos(ci), "the wrapped conn is built on the receiver (reads through it)", "the conn passed to Wrap is not built on the receiver connection itself (it is built on something else, or only on what the receiver's fields hold, e.g. its underlying Conn): the receiver's buffered bytes would be skipped")
 		}
 	}
@@ -691,15 +720,61 @@ func c01R7(c *Ctx, r *Report, rule string) {
 		return
 	}
 	netConn := netConnIface(c)
+	// the handlers, and the unexported helpers a handler hands both its connection and its next handler to
+	type hfn struct {
+		fn       *ssa.Function
+		cx, next *ssa.Parameter
+	}
+	var todo []hfn
+	isHandlerT := func(t types.Type) bool {
+		return strings.HasSuffix(typeStr(t), "layer4.Handler")
+	}
 	for _, fn := range c.implementors(nh, "Handle") {
-		name := fname(fn)
-		if len(fn.Params) < 3 || len(fn.Blocks) == 0 {
-			continue
+		if len(fn.Params) >= 3 && len(fn.Blocks) > 0 {
+			todo = append(todo, hfn{fn, fn.Params[1], fn.Params[2]})
 		}
-		cx := fn.Params[1]
-		next := fn.Params[2]
-		// wrapper-creating calls: result implements net.Conn and an argument derives from cx
-		var wrappers []*ssa.Call
+	}
+	seenFn := map[*ssa.Function]bool{}
+	for _, h := range todo {
+		seenFn[h.fn] = true
+	}
+	for i := 0; i < len(todo); i++ {
+		for _, ci := range callsIn(todo[i].fn) {
+			cal := ci.Common().StaticCallee()
+			if cal == nil || seenFn[cal] || len(cal.Blocks) == 0 || cal.Pkg == nil || !strings.HasPrefix(cal.Pkg.Pkg.Path(), modPath) {
+				continue
+			}
+			var pcx, pnext *ssa.Parameter
+			for k, a := range ci.Common().Args {
+				if k >= len(cal.Params) {
+					break
+				}
+				if a == ssa.Value(todo[i].cx) && isConnPtr(cal.Params[k].Type()) {
+					pcx = cal.Params[k]
+				}
+				if a == ssa.Value(todo[i].next) && isHandlerT(cal.Params[k].Type()) {
+					pnext = cal.Params[k]
+				}
+			}
+			if pcx != nil && pnext != nil {
+				seenFn[cal] = true
+				todo = append(todo, hfn{cal, pcx, pnext})
+			}
+		}
+	}
+	for _, h := range todo {
+		fn := h.fn
+		name := fname(fn)
+		cx := h.cx
+		next := h.next
+		// wrapper-creating calls: result implements net.Conn and an argument derives from cx; a net.Conn handed
+		// in as a parameter next to cx (a helper of a handler) is such a wrapper too
+		var wrappers []ssa.Value
+		for _, pp := range fn.Params {
+			if pp != cx && pp != fn.Params[0] && netConn != nil && types.Implements(pp.Type(), netConn) && !isConnPtr(pp.Type()) {
+				wrappers = append(wrappers, pp)
+			}
+		}
 		for _, ci := range callsIn(fn) {
 			call, ok := ci.(*ssa.Call)
 			if !ok || calleeID(ci) == "layer4.(*Connection).Wrap" {
@@ -730,9 +805,9 @@ func c01R7(c *Ctx, r *Report, rule string) {
 				wrapCall = call
 			}
 			// which wrappers are live (possibly non-nil) here?
-			var live []*ssa.Call
+			var live []ssa.Value
 			for _, w := range wrappers {
-				if !canReach(w, ci) {
+				if wi, isInstr := w.(ssa.Instruction); isInstr && !canReach(wi, ci) {
 					continue
 				}
 				if knownNil(ci.Block(), w, true) {
@@ -752,7 +827,7 @@ func c01R7(c *Ctx, r *Report, rule string) {
 				r.check(recvOK && argOK, rule, name, kk, c.ipos(ci), "passes on cx.Wrap(conn built on cx)", "passes on a Wrap that is not Wrap of the conn built on the handler's own connection")
 			case root == ssa.Value(cx):
 				if len(live) > 0 {
-					r.bad(rule, name, kk, c.ipos(ci), "the handler built "+typeStr(live[0].Type())+" on top of its connection ("+calleeID(live[0])+") but passes the plain connection on: later handlers read the raw stream (e.g. ciphertext / the PROXY header is not stripped)")
+					r.bad(rule, name, kk, c.ipos(ci), "the handler built "+typeStr(live[0].Type())+" on top of its connection ("+live[0].Name()+") but passes the plain connection on: later handlers read the raw stream (e.g. ciphertext / the PROXY header is not stripped)")
 				} else {
 					r.ok(rule, name, kk, c.ipos(ci), "passes its own connection on")
 				}
@@ -775,4 +850,37 @@ func netConnIface(c *Ctx) *types.Interface {
 		}
 	}
 	return nil
+}
+
+// builtOn: v derives from src without looking through what src's fields hold; when both come into an unexported
+// helper as parameters, the question is asked at every call site of the helper.
+func (c *Ctx) builtOn(fn *ssa.Function, v, src ssa.Value, avoid func(ssa.Value) bool, depth int) bool {
+	if derivesFromAvoiding(v, src, avoid) {
+		return true
+	}
+	sp, ok := src.(*ssa.Parameter)
+	if !ok || depth > 2 || token.IsExported(fn.Name()) {
+		return false
+	}
+	sites, escapes := c.callSitesOf(fn)
+	si := paramIndex(fn, sp)
+	if escapes || len(sites) == 0 || si < 0 {
+		return false
+	}
+	for qi, q := range fn.Params {
+		if q == sp || !derivesFromAvoiding(v, q, avoid) {
+			continue
+		}
+		all := true
+		for _, cs := range sites {
+			args := cs.Common().Args
+			if qi >= len(args) || si >= len(args) || !c.builtOn(cs.Parent(), args[qi], rootOf(args[si]), avoid, depth+1) {
+				all = false
+			}
+		}
+		if all {
+			return true
+		}
+	}
+	return false
 }
